@@ -39,13 +39,18 @@ ENTRY = {'coq_dir': 'C12',
                'exceeds its capacity counting the reserved slot and a Connection without a slot does not read. send_sync is a single step with '
                'four outcomes, at most one ForceClose per stream, and once the protocol has executed it every later poll of either Connection '
                'ends it. send_async: completes at once iff a permit is free, else waits; capacity never exceeded counting held permits; no '
-               'permit free while a live sender waits; permits handed over in FIFO order; a dropped future returns its permit. The quiescence '
+               'permit free while a live sender waits; permits handed over in FIFO order; a dropped future returns its permit. Stage-wise progress: '
+               'a poll of the sending Connection with a writable carrier sends everything parked or queued, a poll of the receiving Connection '
+               'with a free slot moves the head of the carrier to the handle, a handle poll reports the head of its channel. The quiescence '
                'stream is proved to be a special schedule. The model is tied to connection.rs/handle.rs/substream by a per-step differential '
                'run with state dumps.',
  'level_note': 'Trusted: Coq kernel, ExtrOcamlBasic extraction, harness and hooks, tokio channel/semaphore internals below the permit level. '
                'One scheduler step is one poll of one future: interleavings INSIDE a poll (threads preempted mid-poll on a multi-thread runtime) '
                'are covered only as far as every shared object is a tokio channel whose operations are atomic. Liveness is limited to '
-               'C12_force_close_closes (no general progress theorem; wake-ups are not modelled because the schedule is arbitrary).',
+               'C12_force_close_closes and the three per-stage progress theorems (no end-to-end eventual-delivery theorem under a fairness '
+               'assumption; wake-ups are not modelled because the schedule is arbitrary). A Connection poll is modelled with an unlimited '
+               "cooperative budget (the harness polls it under tokio::task::unconstrained): a poll cut short by tokio's budget after 128 channel "
+               'operations, and a close_connection spread over two polls, are not exhibited.',
  'assumptions': ['channel capacities >= 1 (tokio panics on 0)',
                  'a stream is set up again only after both Connection tasks of the previous one have finished (guaranteed by '
                  "NotificationProtocol's peer state, C11); each endpoint joins a stream at most once",
